@@ -2,7 +2,8 @@
 (***************************************************************************)
 (* Trace validation for C10 (property level): every frame that crosses a   *)
 (* virtual link between real router stacks.                                 *)
-(*  {"ev":"topo","n":N,"links":[...]}                                       *)
+(*  {"ev":"topo","n":N,"links":[...]}   optionally "lite":[..], "stubs":[..] *)
+(*      the routers configured with router.lite / router.stub                *)
 (*  {"ev":"originate","id":I,"src":S,"dst":D,"ttl":T,"conv":B}              *)
 (*  {"ev":"cross","id":I,"from":F,"to":T,"ttl":N,"same":B,"known":B}        *)
 (*      same  = all bytes outside TTL, flow flags and switch block equal     *)
@@ -11,6 +12,11 @@
 (*              an error ping: first crossing defines it)                    *)
 (*  {"ev":"reply","id":I,"by":N}      a router answered request I            *)
 (*  {"ev":"end","id":I,"replied":B}                                          *)
+(*  {"ev":"refused","src":S,"dst":D,"conv":B}                                *)
+(*      router S refused to send its own request to D (nothing left S).      *)
+(*      In a converged mesh (conv) the request is handed to D's handlers,    *)
+(*      so it has to leave S: a refusal is only legal where nothing is       *)
+(*      claimed (e.g. a lite router whose only relay is a dead end).         *)
 (*  {"ev":"maint","node":N,"ticks":[..],"idle_s":S,"removed":K}              *)
 (*      router N's periodic workers (routing table / connection state /      *)
 (*      ping handler / session cleaners) ticked after S seconds of idle      *)
@@ -28,7 +34,9 @@ Linked(x, y) == \E le \in links : (le.a = x /\ le.b = y) \/ (le.a = y /\ le.b = 
 
 TraceInit == l = 1 /\ n = 0 /\ links = {} /\ fr = [fi \in {} |-> 0]
 
-Topo == Ev.ev = "topo" /\ n' = Ev.n /\ links' = ToSet(Ev.links) /\ fr' = [fi \in {} |-> 0]
+Topo == /\ Ev.ev = "topo" /\ n' = Ev.n /\ links' = ToSet(Ev.links) /\ fr' = [fi \in {} |-> 0]
+        /\ "lite" \in DOMAIN Ev => ToSet(Ev.lite) \subseteq 1..Ev.n
+        /\ "stubs" \in DOMAIN Ev => ToSet(Ev.stubs) \subseteq 1..Ev.n
 
 Put(id, rec) == [fi \in DOMAIN fr \cup {id} |-> IF fi = id THEN rec ELSE fr[fi]]
 
@@ -61,12 +69,17 @@ End == /\ Ev.ev = "end"
        /\ (Ev.id \in DOMAIN fr /\ fr[Ev.id].conv) => Ev.replied                  \* converged mesh: the reply reaches A
        /\ UNCHANGED <<n, links, fr>>
 
+Refused == /\ Ev.ev = "refused"
+           /\ Ev.src \in 1..n /\ Ev.dst \in 1..n /\ Ev.src # Ev.dst
+           /\ ~Ev.conv                                                         \* converged mesh: the request leaves A (it is handed to B)
+           /\ UNCHANGED <<n, links, fr>>
+
 Maint == /\ Ev.ev = "maint"
          /\ Ev.node \in 1..n
          /\ Ev.removed >= 0 /\ Ev.idle_s >= 0
          /\ UNCHANGED <<n, links, fr>>
 
-TraceNext == l <= Len(Trace) /\ l' = l + 1 /\ (Topo \/ Originate \/ Cross \/ Reply \/ End \/ Maint)
+TraceNext == l <= Len(Trace) /\ l' = l + 1 /\ (Topo \/ Originate \/ Cross \/ Reply \/ End \/ Refused \/ Maint)
 
 TraceAccepted ==
   LET d == TLCGet("stats").diameter
